@@ -194,6 +194,27 @@ func v2Renew() step {
 	}
 }
 
+// v2RenewRedirect renews the contract but pays the final outputs to other parties than the ones named in the
+// contract (consensus does not tie the final outputs' addresses to the contract's): roles 0 and 3.
+func v2RenewRedirect() step {
+	return func(c *stepCtx) ([]types.Transaction, []types.V2Transaction) {
+		e, ok := v2fce(c)
+		own := univ.OwnedSC(c.l, c.as[1].Addr)
+		if !ok || len(own) == 0 || c.alt {
+			return nil, nil
+		}
+		t := univ.V2Renewal(c.l.State, c.as[1], c.as[2], e, own[0], c.h+3, c.h+5)
+		ren := t.FileContractResolutions[0].Resolution.(*types.V2FileContractRenewal)
+		ren.FinalRenterOutput.Address = c.as[0].Addr
+		ren.FinalHostOutput.Address = c.as[3].Addr
+		ren.RenterSignature, ren.HostSignature = types.Signature{}, types.Signature{}
+		rh := c.l.State.RenewalSigHash(*ren)
+		ren.RenterSignature, ren.HostSignature = c.as[1].Key.SignHash(rh), c.as[2].Key.SignHash(rh)
+		univ.SignV2(c.l.State, &t, c.as[1])
+		return nil, []types.V2Transaction{t}
+	}
+}
+
 func v2Proof() step {
 	return func(c *stepCtx) ([]types.Transaction, []types.V2Transaction) {
 		e, ok := v2fce(c)
@@ -286,6 +307,7 @@ func stories(reg univ.Regime) []story {
 		{name: "v2sf", start: v2start, steps: []step{sfSpend(0, 1, 3), sfSpend(1, 2, 3)}},
 		{name: "v2tax-sf", start: v2start, steps: []step{v2Form(3, 5), sfSpend(0, 1, 3), sfSpendClaim(1, 2, 3, 0)}},
 		{name: "v2fc-revise-renew", start: v2start, steps: []step{v2Form(3, 5), v2Revise(), v2Renew()}},
+		{name: "v2fc-renew-redirect", start: v2start, steps: []step{v2Form(3, 5), v2RenewRedirect()}},
 		{name: "v2fc-proof", start: v2start, steps: []step{v2Form(1, 4), empty(), v2Proof()}},
 		{name: "v2fc-expire", start: v2start, steps: []step{v2Form(1, 2), empty(), empty(), v2Expire()}},
 		{name: "v2-attest-foundation", start: v2start, steps: []step{v2Attest(), v2Foundation(), scSpend(3, 1, 2, 0)}},
